@@ -242,10 +242,24 @@ package server
 //@   requires rd != nil
 
 // the pooled interpreters are never nil (pool invariant, assumed here; the pool itself is part of C18)
-//@ func lStatePool.Get
-//@   assumed
+// Sandbox sealing: every interpreter handed out by the pool has the metatable that forbids new globals. The seal is set
+// by lStatePool.New (assumed meaning of the one SetMetatable call in this package); the pool only stores sealed states.
+//@ ghost func luaSealed(L ref) bool
+//@ func lStatePool.New
 //@   frame-by-effects
-//@   ensures result1 == nil ==> result0 != nil && !perCall[result0]
+//@   modifies steps, perCall
+//@   ensures [sealed] result != nil && luaSealed(result)
+//@ func lStatePool.Get
+//@   frame-by-effects
+//@   entry-assume pl != nil && forall(i, 0, len(pl.saved), pl.saved[i] != nil && luaSealed(pl.saved[i]))
+//@   modifies steps, perCall
+//@   ensures [ghost-def.clean] result1 == nil ==> !perCall[result0]
+//@   ensures [handed-out-sealed] result1 == nil ==> result0 != nil && luaSealed(result0)
+//@ func Server.newPool
+//@   frame-by-effects
+//@   modifies steps, perCall
+//@   ensures [pool-sealed] result != nil && forall(i, 0, len(result.saved), result.saved[i] != nil && luaSealed(result.saved[i]))
+//@   loop 1 invariant pl != nil && len(pl.saved) == 5 && 0 <= i && forall(j, 0, i, pl.saved[j] != nil && luaSealed(pl.saved[j]))
 
 // ---- commands issued by scripts (C18) ---------------------------------------------
 // tile38.call / pcall end in luaTile38Call, which picks the lock discipline from the mode of the running script:
@@ -302,6 +316,7 @@ package server
 //@ func lStatePool.Put
 //@   frame-by-effects
 //@   requires [clean-before-pooling] !perCall[L]
+//@   requires [sealed-before-pooling] luaSealed(L)
 // The script itself runs inside the interpreter (not analysable here): what it can do to the server goes through
 // luaTile38Call (above), which leaves the lock as it found it and logs every write it makes.
 //@ func Server.cmdEvalUnified
@@ -908,3 +923,11 @@ package server
 //@   at-call buntdb.DB.Update#2 [puts-back-the-unsent-suffix] len(keys) == len(k0) - idx3 && len(vals) == len(keys)
 //@   at-call buntdb.Tx.Set#1 [puts-back-under-original-key] arg0 == k0[idx3 + idx6] && arg1 == v0[idx3 + idx6]
 //@   at-return [all-sent-once-in-order] ok ==> len(sentLog) == sl0 + len(vals) && forall(j, 0, len(vals), sentLog[sl0 + j] == vals[j])
+
+// ---- ROAM arguments (C20): the id argument is treated as a pattern exactly when glob.IsGlob says so ----
+//@ func tokenval
+//@   modifies nothing
+//@ func Server.cmdSearchArgs
+//@   frame-by-effects
+//@   modifies steps, perCall
+//@   at-call tokenval#18 [roam-pattern-flag] lfs.roam.on && lfs.roam.pattern == isGlobPat(lfs.roam.id)
